@@ -65,6 +65,12 @@ def gen_plan(rng, index, tier):
             bp["cells"] = [[0, 0, "IC"]] + ([[1, 0, "OC"], [0, 1, "OC"]] if rings > 1 else [])
         if rng.random() < 0.3:
             bp["heights"] = [rng.choice([10.0, 25.0, 33.3]) for _ in range(4)]
+        if rng.random() < 0.4:
+            # systems placed at non-integer origins (free coordinates)
+            # (the core's z origin stays 0: with a non-zero z origin createAssemblyOfType hands a fresh
+            # assembly axial grid bounds taken from the core's *global* mesh - see DESIGN.md 10.3)
+            bp["core_origin"] = [rng.choice([0.0, 1.25, -3.5]), rng.choice([0.0, 2.75]), 0.0]
+            bp["sfp_origin"] = [1234.5, -250.25, 600.75]
         if rng.random() < 0.35:
             # fuel blocks with a pin lattice: components carry multi-index locations
             bp["pins"] = True
